@@ -542,3 +542,94 @@ Section FailStmt.
     - intros s. apply dpres_ctx, dpres_lexec_stmt.
   Qed.
 End FailStmt.
+
+(* ---------------- files ---------------- *)
+Section FailWhole.
+  Context {rx : Type}.
+  Variables (t : tree) (fl : file) (glob : globals) (regexes : list rx)
+            (find : rx -> str -> option (list (option (N * N))))
+            (call : ident -> graph -> list value -> res (value * graph)).
+  Variable okfn : ident -> Prop.
+  Hypothesis Hpure : forall f, okfn f -> pure_fn call f.
+  Hypothesis Hperr : forall f, okfn f -> pure_err_fn call f.
+  Hypothesis Hcall : call_graph_ext call.
+
+  Notation fsim := (fsim t fl call).
+  Notation dpres := (dpres call t fl).
+  Notation lstep := (lstep t fl glob regexes find call).
+
+  Lemma dpres_lstep lf pm : dpres (lstep lf pm).
+  Proof.
+    unfold StrictLazy.lstep. destruct (nth_error (f_stanzas fl) (N.to_nat (fst pm))); [apply dpres_lexec_stanza, Hcall|].
+    apply dpres_of_pfr, pfr_noresult. discriminate.
+  Qed.
+
+  Lemma stanza_matches_fail fuel lf st i : nth_error (f_stanzas fl) (N.to_nat i) = Some st ->
+    forall qs, Forall (match_ok okfn fl st) qs ->
+    fsim (iterM (exec_stanza t fl config0 glob regexes find call fuel st) qs) (iterM (lstep lf) (map (fun q => (i, q)) qs)).
+  Proof.
+    intros Hst. induction qs as [|q qs IH]; intros HF; cbn [iterM map]; [apply fsim_noerr; discriminate|].
+    inversion HF as [|? ? (H1 & H2 & H3) HF']; subst. apply fsim_seq; [| |apply dpres_iterM; intros pm; apply dpres_lstep|apply IH, HF'].
+    - unfold StrictLazy.lstep. cbn [fst snd]. rewrite Hst. apply (stanza_sim t fl glob regexes find call okfn Hpure q H2 fuel lf st H1 H3).
+    - unfold StrictLazy.lstep. cbn [fst snd]. rewrite Hst. apply (stanza_fail t fl glob regexes find call okfn Hpure Hperr Hcall q H2 fuel lf st H1 H3).
+  Qed.
+
+  Lemma file_fail fuel lf : forall sts ms i,
+    (forall j st, nth_error sts j = Some st -> nth_error (f_stanzas fl) (N.to_nat i + j) = Some st) ->
+    file_ok okfn fl sts ms ->
+    fsim (exec_file t fl config0 glob regexes find call fuel sts ms) (iterM (lstep lf) (lmatches_from i ms)).
+  Proof.
+    induction sts as [|st sts IH]; intros [|qs ms] i Hnth Hok; cbn [exec_file lmatches_from file_ok] in *; try (apply fsim_noerr; discriminate).
+    destruct Hok as [Hqs Hrest]. eapply fsim_lext; [intros s p; apply iterM_app|].
+    assert (Hst : nth_error (f_stanzas fl) (N.to_nat i) = Some st) by (rewrite <- (Nat.add_0_r (N.to_nat i)); apply Hnth; reflexivity).
+    assert (Hn : forall j st', nth_error sts j = Some st' -> nth_error (f_stanzas fl) (N.to_nat (i + 1) + j) = Some st').
+    { intros j st' Hj. rewrite N2Nat.inj_add. change (N.to_nat 1) with 1%nat. replace (N.to_nat i + 1 + j)%nat with (N.to_nat i + S j)%nat by lia. apply Hnth. exact Hj. }
+    apply fsim_seq.
+    - apply (stanza_matches_sim t fl glob regexes find call okfn Hpure fuel lf st i Hst qs Hqs).
+    - apply (stanza_matches_fail fuel lf st i Hst qs Hqs).
+    - apply dpres_iterM. intros pm. apply dpres_lstep.
+    - apply IH; [exact Hn|exact Hrest].
+  Qed.
+End FailWhole.
+
+(* ---------------- the theorem ---------------- *)
+Theorem strict_fail_lazy_fail_lemma {rx : Type} t fl supplied (regexes : list rx) find call (okfn : ident -> Prop) fuel ms g0 e :
+  (forall f, okfn f -> pure_fn call f) -> (forall f, okfn f -> pure_err_fn call f) -> call_graph_ext call ->
+  file_ok okfn fl (f_stanzas fl) ms ->
+  run_strict t fl config0 supplied None regexes find call fuel ms g0 = Err e -> okerr e ->
+  forall lfuel,
+    match run_lazy t fl config0 supplied None regexes find call lfuel (lmatches_of ms) g0 with
+    | Ok _ => False
+    | Err _ | Panic _ | OutOfFuel => True
+    end.
+Proof.
+  intros Hpure Hperr Hcall Hok Hs Ho lfuel. unfold run_strict in Hs. unfold run_lazy.
+  destruct (check_globals (f_globals fl) (globals_nested supplied)) as [glob|e0|x|]; try discriminate; [|exact I].
+  destruct (exec_file t fl config0 glob regexes find call fuel (f_stanzas fl) ms (sinit g0) (polls0 None)) as [[[u s1] p1]|e0|x|] eqn:Es; try discriminate.
+  inversion Hs; subst e0; clear Hs.
+  assert (HR0 : RelX call (sinit g0) (linit g0)).
+  { exists []. split; [split; [apply store_wf_nil|constructor; [constructor|constructor]]|]. split; [reflexivity|]. split; [constructor|].
+    exists [], [], g0. repeat split; constructor. }
+  pose proof (file_fail t fl glob regexes find call okfn Hpure Hperr Hcall fuel lfuel (f_stanzas fl) ms 0 (fun j st H => H) Hok _ _ _ Es Ho (linit g0) (polls0 None) HR0 eq_refl) as Hx.
+  unfold lexec_file. fold (lstep t fl glob regexes find call lfuel). unfold lmatches_of.
+  unfold bind. destruct (iterM (lstep t fl glob regexes find call lfuel) (lmatches_from 0 ms) (linit g0) (polls0 None)) as [[[u1 ls1] pl1]|e1|x1|]; cbn [nres] in Hx; try exact I.
+  destruct Hx as [Hb1 HD1].
+  pose proof (evaluate_doomed call Hcall t fl (lfuel + default_eval_fuel) ls1 pl1 HD1 Hb1) as Hv.
+  destruct (evaluate_phase t fl call (lfuel + default_eval_fuel) ls1 pl1) as [[[u2 ls2] pl2]|e2|x2|]; cbn in Hv; [contradiction|exact I|exact I|exact I].
+Qed.
+
+(* ---------------- the standard library ---------------- *)
+(* a failing call of a function other than `node` fails in the same way on every graph *)
+Lemma stdlib_pure_err_fn rxo t f : fn_of_name f <> Some FNode -> pure_err_fn (stdlib_call rxo t) f.
+Proof.
+  intros Hn g args e. unfold stdlib_call. destruct (fn_of_name f) as [fn|]; [|intros H g2; exact H]. unfold stdlib_fn.
+  assert (Hp : forall g2, stdlib_pure rxo t fn g2 args = stdlib_pure rxo t fn g args) by (intros g2; destruct fn; try reflexivity; congruence).
+  intros H g2. rewrite Hp. destruct (stdlib_pure rxo t fn g args) as [v0|e0|x|]; cbn [obind] in *; try discriminate. exact H.
+Qed.
+(* every function of the standard library (`node` included) only extends the graph *)
+Lemma stdlib_call_graph_ext rxo t : call_graph_ext (stdlib_call rxo t).
+Proof.
+  intros f g args v g'. unfold stdlib_call. destruct (fn_of_name f) as [fn|]; [|discriminate]. unfold stdlib_fn.
+  destruct (stdlib_pure rxo t fn g args) as [v0|e0|x|]; cbn [obind]; try discriminate. intros H. inversion H; subst.
+  destruct fn; try apply graph_ext_refl. apply (proj1 (add_graph_node_ext g)).
+Qed.
